@@ -125,6 +125,11 @@ impl SwiftField for Field52B {
         }
 
         // Check for location
+        if lines.len() > current_idx + 1 {
+            return Err(ParseError::InvalidFormat {
+                message: "Field 52B has more lines than [party identifier] + location".to_string(),
+            });
+        }
         if current_idx < lines.len() {
             let loc = lines[current_idx];
             if loc.len() > 35 {
